@@ -34,7 +34,7 @@ def _variant(doc):
     return doc + "x"
 
 
-def record(jp, env, q, doc, edoc, extra=None, kept=None):
+def record(jp, env, q, doc, edoc, extra=None, kept=None, kept_label="query compiled before the environment was reconfigured"):
     def run(path, kind, fn):
         res = {"path": path, "kind": kind, "locs": [], "none": False, "cls": "", "jp": True}
         try:
@@ -89,8 +89,8 @@ def record(jp, env, q, doc, edoc, extra=None, kept=None):
     results.append(run("env.compile.finditer", "list", lambda: list(e.compile(q).finditer(doc))))
     results.append(run("env.compile.find_one", "first", lambda: e.compile(q).find_one(doc)))
     if kept is not None:
-        results.append(run("query compiled before the environment was reconfigured .find", "list", lambda: kept.find(doc)))
-        results.append(run("query compiled before the environment was reconfigured .find_one", "first", lambda: kept.find_one(doc)))
+        results.append(run(kept_label + " .find", "list", lambda: kept.find(doc)))
+        results.append(run(kept_label + " .find_one", "first", lambda: kept.find_one(doc)))
     rec = {"op": "entry", "q": core.enc_text(q), "doc": edoc, "results": results}
     if extra:
         rec.update(extra)
@@ -135,6 +135,20 @@ def run(chk: core.Check, tier: str, seed: int) -> None:
         for want in (0, 1, 2):
             d = {"want": want, "on": want, "items": [{"v": 0}, {"v": 1}, {"v": 2}, {"v": 1}]}
             recs.append(record(jp, fresh, q, d, core.enc_value(d)))
+    # a compiled query that is KEPT while the caller edits the document in place between uses is one more entry point: it must
+    # answer for the document as it is now, like the module functions, the environment and a freshly compiled query do
+    for env in (fresh, None):
+        for q in common.ROOT_QUERIES:
+            e = jp.DEFAULT_ENV if env is None else env
+            kept_q = e.compile(q)
+            d = {"want": 0, "ref": [1], "cfg": {"lim": 1}, "items": [{"v": 0, "s": "ab"}, {"v": 1, "s": "b"}, {"v": 2, "s": "abc"}, [0, 1]]}
+            for k in range(5):
+                recs.append(record(jp, env, q, d, core.enc_value(d), kept=kept_q, kept_label="compiled query kept across in-place edits of the document"))
+                d["want"] = (d["want"] + 1) % 3
+                d["ref"].append(k)
+                d["cfg"]["lim"] = k % 3
+                if k == 2:
+                    d["items"].append({"v": d["want"], "s": "aaa"})
     # evaluation-time errors: recursion limit
     deep = [[[[[[1]]]]], {"a": {"a": {"a": {"a": 1}}}}, [1, [2, [3, [4]]], {"a": [[[]]]}], [[1], [2]]]
     for lim in (1, 2, 3, 5):
